@@ -100,6 +100,16 @@ def check_sync(ctx, case):
             scratch[:len(res)] = res
             return scratch[:len(res)]
         return res
+    # the documented convention passes the trace BY KEYWORD (trace_object=...): a function whose first positional parameter is something else,
+    # or whose parameters are keyword-only, is as valid as fn(trace_object, ...)
+    sig = case.get('fn_signature') or 'trace_first'
+    fn_core = fn
+    if sig == 'trace_second':
+        def fn(scale, trace_object):           # noqa: F811
+            return fn_core(trace_object, scale)
+    elif sig == 'keyword_only':
+        def fn(*, trace_object, scale):        # noqa: F811
+            return fn_core(trace_object, scale)
     try:
         with warnings.catch_warnings():
             warnings.simplefilter('ignore')
@@ -176,7 +186,7 @@ def check_sync(ctx, case):
              ['n:%s' % ('<=6' if n <= 6 else '>6'), 'all_rejected' if not acc else ('none_rejected' if rej == 0 else 'mixed'),
               'first_rejected' if pattern[0] != 'A' else 'first_accepted', 'last_rejected' if pattern[-1] != 'A' else 'last_accepted',
               'failure_run>=16' if runs >= 16 else 'failure_run>=8' if runs >= 8 else 'failure_run<8', 'path' if case['as_path'] else 'str',
-              'len_differs' if out_len != samples.shape[1] else 'len_same'] + (['check_before_run'] if case.get('check_before') else []) + (['function_reuses_one_output_buffer'] if case.get('reuse_out_buffer') else []) + (['sibling_synchronizer_with_other_kwargs'] if case.get('sibling_kwargs') else []) + (['%s_attribute_set_after_construction' % case['set_after_init']] if case.get('set_after_init') else []) + (['preexisting_output_file'] if case['preexisting'] else []))
+              'len_differs' if out_len != samples.shape[1] else 'len_same'] + (['check_before_run'] if case.get('check_before') else []) + (['function_reuses_one_output_buffer'] if case.get('reuse_out_buffer') else []) + (['sibling_synchronizer_with_other_kwargs'] if case.get('sibling_kwargs') else []) + (['function_signature:' + case['fn_signature']] if case.get('fn_signature') else []) + (['%s_attribute_set_after_construction' % case['set_after_init']] if case.get('set_after_init') else []) + (['preexisting_output_file'] if case['preexisting'] else []))
 
 
 def replay(ctx, case):
@@ -191,7 +201,7 @@ def _mk(g, pattern, out_len=None):
             'out_len': int(g.integers(1, 9)) if out_len is None else out_len, 'scale': float(g.integers(1, 4)),
             'as_path': bool(g.integers(2)), 'overwrite': bool(g.integers(2)), 'preexisting': int(g.integers(1, 4)) if g.integers(5) == 0 else 0,
             'check_before': int(g.integers(1, 6)) if g.integers(4) == 0 else 0,
-            'reuse_out_buffer': bool(g.integers(3) == 0), 'sibling_kwargs': bool(g.integers(4) == 0), 'set_after_init': ['', '', '', 'kwargs', 'function'][int(g.integers(5))]}
+            'reuse_out_buffer': bool(g.integers(3) == 0), 'sibling_kwargs': bool(g.integers(4) == 0), 'set_after_init': ['', '', '', 'kwargs', 'function'][int(g.integers(5))], 'fn_signature': ['', '', 'trace_second', 'keyword_only'][int(g.integers(4))]}
 
 
 def unit_enum(ctx, nmax, shard, nshards):
@@ -228,7 +238,7 @@ def sync_cases(draw):
     return {'kind': 'sync', 'samples': samples, 'plaintext': plaintext, 'pattern': pattern,
             'out_len': draw(st.one_of(st.just(L), st.integers(1, 9))), 'scale': float(draw(st.integers(1, 3))),
             'as_path': draw(st.booleans()), 'overwrite': draw(st.booleans()), 'preexisting': draw(st.sampled_from([0, 0, 0, 1, 2])),
-            'check_before': draw(st.sampled_from([0, 0, 0, 1, 3, 7])), 'reuse_out_buffer': draw(st.booleans()), 'sibling_kwargs': draw(st.sampled_from([False, False, True])), 'set_after_init': draw(st.sampled_from(['', '', '', 'kwargs', 'function']))}
+            'check_before': draw(st.sampled_from([0, 0, 0, 1, 3, 7])), 'reuse_out_buffer': draw(st.booleans()), 'sibling_kwargs': draw(st.sampled_from([False, False, True])), 'set_after_init': draw(st.sampled_from(['', '', '', 'kwargs', 'function'])), 'fn_signature': draw(st.sampled_from(['', '', 'trace_second', 'keyword_only']))}
 
 
 def unit_generated(ctx, n):
